@@ -37,7 +37,7 @@ REQUIRED_MONITORS = ["value-continuous", "normal-component-continuous", "tangent
                      "tangential-component-continuous/facetbasis"]
 REQUIRED_REACH = ["facet-opposite-direction", "facet-different-slot", "hdiv-orient-both-signs",
                   "hcurl-orient-both-signs", "curved-mesh", "docs-mesh", "quad-shifted", "hex-rotated",
-                  "derived-mesh", "derived-mesh:adaptive"]
+                  "derived-mesh", "derived-mesh:adaptive", "first-order-simplices-in-given-local-order"]
 
 
 def mesh_geometry(mesh, kind, order):
@@ -460,7 +460,13 @@ def derived(ctx, rng, mc):
     if kind in ("tri", "quad") or nt <= 12:
         ops.append("mirrored")
     if kind in ("tri", "tet") and nt <= 60:
-        ops += ["adaptive", "adaptive", "adaptive-twice", "used-elsewhere"]
+        ops += ["adaptive", "adaptive", "adaptive-twice", "used-elsewhere", "oriented"]
+    if kind == "tri":
+        ops += ["unsorted"]
+    if kind == "quad" and nt <= 40:
+        ops += ["to_meshtri", "to_meshtri-x"]
+    if kind == "hex" and nt <= 8:
+        ops += ["to_meshtet"]
     if nt <= {"tri": 20, "quad": 16, "tet": 6, "hex": 3}[kind]:
         ops.append("uniform")
     op = ops[int(rng.integers(len(ops)))]
@@ -481,6 +487,17 @@ def derived(ctx, rng, mc):
             m2 = m.mirrored(tuple(n), tuple(np.asarray(m.p).min(1) - 0.25))
         elif op == "adaptive":
             m2 = m.refined(np.sort(rng.choice(nt, size=int(rng.integers(1, max(2, nt // 3))), replace=False)))
+        elif op == "oriented":
+            m2 = m.oriented()
+        elif op == "unsorted":
+            t_ = np.array(m.t)
+            for c_ in range(t_.shape[1]):
+                t_[:, c_] = t_[rng.permutation(3), c_]
+            m2 = type(m)(np.array(m.p), t_, sort_t=False)
+        elif op in ("to_meshtri", "to_meshtri-x"):
+            m2 = m.to_meshtri(style="x") if op.endswith("x") else m.to_meshtri()
+        elif op == "to_meshtet":
+            m2 = m.to_meshtet()
         elif op == "used-elsewhere":
             # the mesh itself, after other meshes were derived from it (its tables in use before and after)
             _ = (m.facets, m.t2f, m.f2t)
@@ -501,8 +518,12 @@ def derived(ctx, rng, mc):
         return mc
     ctx.reached("derived-mesh:" + op.split("-")[0])
     ctx.reached("derived-mesh")
-    return G.MeshCase(m2, kind, 1, dict(mc.desc, derived=op, ncells=int(m2.t.shape[1])), affine_cells=mc.affine_cells,
-                      straight=True, planar_faces=mc.planar_faces)
+    kind2 = {"to_meshtri": "tri", "to_meshtri-x": "tri", "to_meshtet": "tet"}.get(op, kind)
+    unsorted = kind2 in ("tri", "tet") and not (np.diff(np.asarray(m2.t), axis=0) > 0).all()
+    if op in ("oriented", "unsorted") and unsorted:
+        ctx.reached("first-order-simplices-in-given-local-order")
+    return G.MeshCase(m2, kind2, 1, dict(mc.desc, derived=op, ncells=int(m2.t.shape[1]), unsorted_first_order=bool(unsorted and kind2 == "tri")),
+                      affine_cells=(True if kind2 != kind else mc.affine_cells), straight=True, planar_faces=mc.planar_faces)
 
 
 def pick_mesh(ctx, rng, rec, k):
@@ -560,6 +581,21 @@ def gen_case(kind):
         mc = pick_mesh(ctx, rng, rec, k // len(recs) + k)
         if mc.order == 2 and any(r.family == "global" for r in component_records(rec)):
             raise Skip("global-element-needs-first-order-mesh")
+        if mc.kind != kind:
+            # a simplex mesh split off a quadrilateral / hexahedral one: judged with a simplex element of the same family
+            alt = [r for r in records_with_claim(mc.kind) if r.family == rec.family and not r.name.startswith(("Vector(", "Composite("))]
+            if not alt:
+                raise Skip("no-element-for-the-split-mesh")
+            rec = alt[int(rng.integers(len(alt)))]
+        if mc.desc.get("unsorted_first_order"):
+            # the caller's explicit choice (sort_t=False / oriented()): the statement keeps these meshes for elements
+            # with at most one DOF per facet and edge
+            e_ = rec.make()
+            multi = max(getattr(e_, "facet_dofs", 0), getattr(e_, "edge_dofs", 0)) > 1 or any(
+                max(getattr(c_, "facet_dofs", 0), getattr(c_, "edge_dofs", 0)) > 1 for c_ in getattr(e_, "elems", []))
+            if multi:
+                ctx.drop("unsorted-triangles:element-with-several-dofs-per-facet-is-outside-the-claim")
+                return
         check_mesh_elem(ctx, mc, rec)
         if rec.family == "global" and rec.name in ("ElementTriMorley", "ElementLineHermite", "ElementTriHermite",
                                                    "ElementTriArgyris", "ElementTri15ParamPlate", "ElementQuadBFS",
